@@ -110,10 +110,10 @@ Definition partition_ok (v0 : bool) (st : tstate) : Prop :=
   Permutation (nas_ids v0 st ++ net_ids v0 st) (param_ids v0 st).
 
 Lemma nas_in v0 st i : In i (nas_ids v0 st) <-> In i (flat_map layer_ids (layers st)) /\ In i (param_ids v0 st).
-Proof. unfold nas_ids. destruct (dedup_spec (filter (fun i => memb i (param_ids v0 st)) (flat_map layer_ids (layers st))) []) as [_ S].
+Proof. unfold nas_ids. cbv zeta. destruct (dedup_spec (filter (fun i => memb i (param_ids v0 st)) (flat_map layer_ids (layers st))) []) as [_ S].
   rewrite S, filter_In, memb_In. cbn. tauto. Qed.
 Lemma net_in v0 st i : In i (net_ids v0 st) <-> In i (param_ids v0 st) /\ ~ In i (nas_ids v0 st).
-Proof. unfold net_ids. rewrite filter_In, negb_true_iff, memb_false. tauto. Qed.
+Proof. unfold net_ids. cbv zeta. rewrite filter_In, negb_true_iff, memb_false. tauto. Qed.
 
 Lemma partition_one v0 st : NoDup (map p_id (tens st)) -> partition_ok v0 st.
 Proof. intro N.
